@@ -582,19 +582,26 @@ theorem ensureBasis_erase (s : SeqState) (b : Basis) : (erase s).ensureBasis b =
   unfold SeqState.ensureBasis
   simp only [erase_refs, erase_nQ]
   by_cases h : (s.refs.any (·.1 == b)) = true
-  · simp only [h, ↓reduceIte]
-  · simp only [h, ↓reduceIte]; rfl
+  · simp only [h, if_true]
+  · simp only [h]; rfl
 
 theorem phaseShift_erase (s : SeqState) (phi : Rat) (qs : List Nat) (b : Basis) :
     (erase s).phaseShift phi qs b = eraseRaw (s.phaseShift phi qs b) := by
   unfold SeqState.phaseShift
-  simp only [erase_getRefs, erase_allQubits, erase_nQ]
   by_cases h1 : (s.getRefs b).isNone = true
-  · simp only [h1, ↓reduceIte]; rfl
-  · simp only [h1, ↓reduceIte]
+  · have h1' : ((erase s).getRefs b).isNone = true := h1
+    rw [if_pos h1', if_pos h1]; rfl
+  · have h1' : ¬ ((erase s).getRefs b).isNone = true := h1
+    rw [if_neg h1', if_neg h1]
+    simp only
     by_cases h2 : ((if qs.isEmpty = true then s.allQubits else qs).any fun x => decide (x ≥ s.nQ)) = true
-    · simp only [h2, ↓reduceIte]; rfl
-    · simp only [h2, ↓reduceIte, mapRefs_erase]; rfl
+    · have h2' : ((if qs.isEmpty = true then (erase s).allQubits else qs).any
+          fun x => decide (x ≥ (erase s).nQ)) = true := h2
+      rw [if_pos h2', if_pos h2]; rfl
+    · have h2' : ¬ ((if qs.isEmpty = true then (erase s).allQubits else qs).any
+          fun x => decide (x ≥ (erase s).nQ)) = true := h2
+      rw [if_neg h2', if_neg h2]
+      simp only [erase_allQubits, mapRefs_erase]; rfl
 
 theorem validateChannel_erase {s : SeqState} {n : ChName} {b : Bool} {c : ChanState}
     (h : s.validateChannel n b = .ok c) : (erase s).validateChannel n b = .ok (eraseChan c) := by
@@ -603,10 +610,13 @@ theorem validateChannel_erase {s : SeqState} {n : ChName} {b : Bool} {c : ChanSt
   cases hg : s.getChan n with
   | none => simp [hg] at h
   | some c0 =>
-    simp only [hg, Option.map_some, eraseChan_inEomMode] at h ⊢
-    split at h
-    · cases h
-    · rename_i hc; rw [if_neg hc]; cases h; rfl
+    simp only [hg, Option.map_some] at h ⊢
+    by_cases hc : (b && c0.inEomMode) = true
+    · rw [if_pos hc] at h; cases h
+    · have hc' : ¬ (b && (eraseChan c0).inEomMode) = true := hc
+      rw [if_neg hc] at h
+      rw [if_neg hc']
+      cases h; rfl
 
 theorem withChan_erase {s : SeqState} {n : ChName} {f g : ChanState → CRes} (hs : Sim f g)
     (h : (s.withChan n f).err = none) : (erase s).withChan n g = eraseRaw (s.withChan n f) := by
@@ -631,6 +641,9 @@ theorem rbind_ok {r : Raw} {f : SeqState → Raw} (h : (r.bind f).err = none) :
   | none => simp only [hr] at h ⊢; exact ⟨trivial, h, trivial⟩
   | some e => simp [hr] at h
 
+theorem rbind_none {r : Raw} {f : SeqState → Raw} (h : r.err = none) : r.bind f = f r.st := by
+  unfold Raw.bind; simp [h]
+
 theorem eraseRaw_bind {r : Raw} {f g : SeqState → Raw} (hr : r.err = none) (hs : SimR f g)
     (h : (f r.st).err = none) : (eraseRaw r).bind g = eraseRaw (r.bind f) := by
   unfold Raw.bind
@@ -638,12 +651,12 @@ theorem eraseRaw_bind {r : Raw} {f g : SeqState → Raw} (hr : r.err = none) (hs
   exact hs _ h
 
 theorem store_erase (op : Op) (r : Raw) : store op (eraseRaw r) = eraseRaw (store op r) := by
-  unfold store eraseRaw
-  cases r.err <;> rfl
+  obtain ⟨st, err, out⟩ := r
+  cases err <;> rfl
 
 theorem markNonEmpty_erase (r : Raw) : markNonEmpty (eraseRaw r) = eraseRaw (markNonEmpty r) := by
-  unfold markNonEmpty eraseRaw
-  cases r.err <;> rfl
+  obtain ⟨st, err, out⟩ := r
+  cases err <;> rfl
 
 theorem store_err (op : Op) (r : Raw) : (store op r).err = r.err := by
   unfold store; cases h : r.err <;> simp [h]
@@ -653,6 +666,949 @@ theorem markNonEmpty_err (r : Raw) : (markNonEmpty r).err = r.err := by
 
 theorem eraseRaw_fail (s : SeqState) (e : Err) : eraseRaw (fail s e) = fail (erase s) e := rfl
 theorem eraseRaw_done (s : SeqState) : eraseRaw (done s) = done (erase s) := rfl
+
+/-! ### the building calls -/
+
+theorem addCore_erase {s : SeqState} {p : PulseIn} {n : ChName} {proto : Option Protocol}
+    {drift : Option Drift} (h : (addCore s p n proto drift).err = none) :
+    addCore (erase s) p n proto drift = eraseRaw (addCore s p n proto drift) := by
+  unfold addCore at h ⊢
+  cases proto with
+  | none => simp [fail] at h
+  | some proto =>
+    simp only at h ⊢
+    rw [getChan_erase]
+    cases hg : s.getChan n with
+    | none => simp [hg, fail] at h
+    | some c =>
+      simp only [hg, Option.map_some] at h ⊢
+      have hle : (eraseChan c).last = c.last := rfl
+      cases hl : c.last with
+      | error e => simp [hl, fail] at h
+      | ok last =>
+        rw [hl] at hle
+        simp only [hl, hle] at h ⊢
+        by_cases hc : (!c.cfg.isDmm && !allSame (s.lastPhases c.cfg.basis last.targets)) = true
+        · rw [if_pos hc] at h; simp [fail] at h
+        · have hc' : ¬ (!(eraseChan c).cfg.isDmm &&
+              !allSame ((erase s).lastPhases (eraseChan c).cfg.basis last.targets)) = true := hc
+          rw [if_neg hc] at h
+          rw [if_neg hc', if_neg hc]
+          cases hv : validateAndAdjust c p (if c.cfg.isDmm = true then none
+              else (s.lastPhases c.cfg.basis last.targets).head?) with
+          | error e => simp [hv, fail] at h
+          | ok pr =>
+            have hv' : validateAndAdjust (eraseChan c) p (if (eraseChan c).cfg.isDmm = true then none
+              else ((erase s).lastPhases (eraseChan c).cfg.basis last.targets).head?) = .ok pr :=
+              validateAndAdjust_erase hv
+            simp only [hv, hv'] at h ⊢
+            cases ha : addPulse s.dev.maxSeqDur c (s.others n) pr (s.lastTimes c.cfg.basis last.targets) proto drift with
+            | error e => simp [ha, fail] at h
+            | ok c' =>
+              have ha' : addPulse (erase s).dev.maxSeqDur (eraseChan c) ((erase s).others n) pr
+                  ((erase s).lastTimes (eraseChan c).cfg.basis last.targets) proto drift = .ok (eraseChan c') := by
+                rw [others_erase]; exact addPulse_erase ha
+              simp only [ha, ha'] at h ⊢
+              have hle2 : (eraseChan c').last = c'.last := rfl
+              cases hl2 : c'.last with
+              | error e => simp [hl2, fail] at h
+              | ok newSlot =>
+                rw [hl2] at hle2
+                simp only [hl2, hle2] at h ⊢
+                by_cases ht : totalShift pr.post drift newSlot.ti ≠ 0
+                · rw [if_pos ht] at h
+                  rw [if_pos ht, if_pos ht]
+                  simp only [setChan_erase, eraseChan_cfg, timing_basis, mapRefs_erase]
+                  exact phaseShift_erase _ _ _ _
+                · rw [if_neg ht] at h
+                  rw [if_neg ht, if_neg ht]
+                  simp only [setChan_erase, eraseChan_cfg, timing_basis, mapRefs_erase]
+                  rfl
+
+theorem targetCore_erase {s : SeqState} {qs : List Nat} {n : ChName} (h : (targetCore s qs n).err = none) :
+    targetCore (erase s) qs n = eraseRaw (targetCore s qs n) := by
+  unfold targetCore at h ⊢
+  by_cases hm : s.measured.isSome = true
+  · rw [if_pos hm] at h; simp [fail] at h
+  · have hm' : ¬ (erase s).measured.isSome = true := hm
+    rw [if_neg hm] at h
+    rw [if_neg hm', if_neg hm]
+    cases hv : s.validateChannel n true with
+    | error e => simp [hv, fail] at h
+    | ok c =>
+      simp only [hv, validateChannel_erase hv] at h ⊢
+      by_cases h1 : qs.isEmpty = true
+      · rw [if_pos h1] at h; simp [fail] at h
+      · rw [if_neg h1] at h
+        rw [if_neg h1, if_neg h1]
+        by_cases h2 : (!c.cfg.isLocal) = true
+        · rw [if_pos h2] at h; simp [fail] at h
+        · have h2' : ¬ (!(eraseChan c).cfg.isLocal) = true := h2
+          rw [if_neg h2] at h
+          rw [if_neg h2', if_neg h2]
+          by_cases h3 : overNat c.cfg.maxTargets qs.length = true
+          · rw [if_pos h3] at h; simp [fail] at h
+          · have h3' : ¬ overNat (eraseChan c).cfg.maxTargets qs.length = true := by
+              simp [overNat]
+            rw [if_neg h3] at h
+            rw [if_neg h3', if_neg h3]
+            by_cases h4 : (qs.any (· ≥ s.nQ)) = true
+            · rw [if_pos h4] at h; simp [fail] at h
+            · have h4' : ¬ (qs.any (· ≥ (erase s).nQ)) = true := h4
+              rw [if_neg h4] at h
+              rw [if_neg h4', if_neg h4]
+              by_cases h5 : (!allSame (s.lastPhases c.cfg.basis qs)) = true
+              · rw [if_pos h5] at h; simp [fail] at h
+              · have h5' : ¬ (!allSame ((erase s).lastPhases (eraseChan c).cfg.basis qs)) = true := h5
+                rw [if_neg h5] at h
+                rw [if_neg h5', if_neg h5]
+                exact withChan_erase (fun c hc => addTarget_erase hc) h
+
+theorem SimR.bind {f g f' g' : SeqState → Raw} (h1 : SimR f g) (h2 : SimR f' g') :
+    SimR (fun s => (f s).bind f') (fun s => (g s).bind g') := by
+  intro s hs
+  obtain ⟨a1, a2, a3⟩ := rbind_ok hs
+  simp only at a3 ⊢
+  rw [a3, h1 s a1]
+  unfold Raw.bind
+  simp only [eraseRaw, a1]
+  exact h2 _ a2
+
+/-- First stage of `_delay`: the optional wait for the fall time. -/
+def delayWait (n : ChName) (atRest : Bool) : SeqState → Raw := fun s =>
+  if atRest then s.withChan n fun c => CRes.lift c (waitForFall s.dev.maxSeqDur c) else done s
+
+/-- Second stage of `_delay`: the delay itself. -/
+def delayAdd (d : Int) (n : ChName) : SeqState → Raw := fun s =>
+  if d = 0 then done s
+  else s.withChan n fun c =>
+    CRes.lift c (if d < 0 then (do let _ ← c.last; .error .durTooShort)
+                 else addDelay s.dev.maxSeqDur c d.toNat)
+
+theorem sim_delayWait (n : ChName) (atRest : Bool) : SimR (delayWait n atRest) (delayWait n atRest) := by
+  intro s h
+  unfold delayWait at h ⊢
+  cases atRest with
+  | false => rfl
+  | true =>
+    simp only [if_true] at h ⊢
+    exact withChan_erase (sim_waitForFall s.dev.maxSeqDur) h
+
+theorem sim_delayAdd (d : Int) (n : ChName) : SimR (delayAdd d n) (delayAdd d n) := by
+  intro s h
+  unfold delayAdd at h ⊢
+  by_cases hd : d = 0
+  · rw [if_pos hd, if_pos hd]; rfl
+  · rw [if_neg hd] at h
+    rw [if_neg hd, if_neg hd]
+    refine withChan_erase (f := fun c => CRes.lift c (if d < 0 then (do let _ ← c.last; .error .durTooShort)
+                 else addDelay s.dev.maxSeqDur c d.toNat)) ?_ h
+    apply Sim.lift
+    intro c c' hx
+    simp only at hx ⊢
+    by_cases hn : d < 0
+    · rw [if_pos hn] at hx
+      cases hl : c.last <;> simp [hl, bind, Except.bind] at hx
+    · rw [if_neg hn] at hx ⊢
+      exact addDelay_erase hx
+
+theorem delayCore_erase {s : SeqState} {d : Int} {n : ChName} {atRest : Bool}
+    (h : (delayCore s d n atRest).err = none) :
+    delayCore (erase s) d n atRest = eraseRaw (delayCore s d n atRest) := by
+  unfold delayCore at h ⊢
+  by_cases hm : s.measured.isSome = true
+  · rw [if_pos hm] at h; simp [fail] at h
+  · have hm' : ¬ (erase s).measured.isSome = true := hm
+    rw [if_neg hm] at h
+    rw [if_neg hm', if_neg hm]
+    cases hv : s.validateChannel n false with
+    | error e => simp [hv, fail] at h
+    | ok c =>
+      simp only [hv, validateChannel_erase hv] at h ⊢
+      exact (SimR.bind (sim_delayWait n atRest) (sim_delayAdd d n)) s h
+
+theorem sim_delayCore (d : Int) (n : ChName) (atRest : Bool) :
+    SimR (fun s => delayCore s d n atRest) (fun s => delayCore s d n atRest) :=
+  fun _ h => delayCore_erase h
+
+theorem sim_alignLoop (tf : Int) (l : List (ChName × Int)) : SimR (alignLoop tf l) (alignLoop tf l) := by
+  induction l with
+  | nil => intro s _; rfl
+  | cons x rest ih =>
+    intro s h
+    obtain ⟨n, t⟩ := x
+    unfold alignLoop at h ⊢
+    rw [getChan_erase]
+    cases hg : s.getChan n with
+    | none => simp [hg, fail] at h
+    | some c =>
+      simp only [hg, Option.map_some] at h ⊢
+      by_cases hd : tf - c.getDuration false > 0
+      · have hd' : tf - (eraseChan c).getDuration false > 0 := hd
+        rw [if_pos hd] at h
+        rw [if_pos hd', if_pos hd]
+        cases ha : c.adjust (tf - c.getDuration false).toNat with
+        | error e => simp [ha, fail] at h
+        | ok dd =>
+          have ha' : (eraseChan c).adjust (tf - (eraseChan c).getDuration false).toNat = .ok dd := adjust_erase ha
+          simp only [ha, ha'] at h ⊢
+          exact (SimR.bind (sim_delayCore dd n false) ih) s h
+      · have hd' : ¬ tf - (eraseChan c).getDuration false > 0 := hd
+        rw [if_neg hd] at h
+        rw [if_neg hd', if_neg hd]
+        exact ih s h
+
+/-! ### declarations -/
+
+theorem occupied_erase (s : SeqState) (b : Bool) (id : Nat) : (erase s).occupied b id = s.occupied b id := by
+  unfold SeqState.occupied
+  simp only [erase_chans, List.any_map]
+  rfl
+
+theorem available_erase {s : SeqState} {b : Bool} {id : Nat} {cfg : ChanCfg}
+    (h : s.available b id cfg = true) : (erase s).available b id (timing cfg) = true := by
+  unfold SeqState.available at h ⊢
+  show (if (!s.inXY && !s.inIsing) = true then true
+        else (!((erase s).occupied b id) || true) &&
+          (if s.inXY = true then cfg.basis == Basis.xy || b else cfg.basis != Basis.xy)) = true
+  by_cases h0 : (!s.inXY && !s.inIsing) = true
+  · rw [if_pos h0]
+  · rw [if_neg h0] at h ⊢
+    simp only [Bool.and_eq_true] at h
+    simp [h.2]
+
+theorem freshChan_erase (name : ChName) (id : Nat) (cfg : ChanCfg) (qs : List Nat) (w : Bool) (a b : Rat) :
+    SeqState.freshChan name id (timing cfg) qs w a b = eraseChan (SeqState.freshChan name id cfg qs w a b) := rfl
+
+theorem addChannel_erase (s : SeqState) (c : ChanState) :
+    (erase s).addChannel (eraseChan c) = erase (s.addChannel c) := by
+  unfold SeqState.addChannel
+  by_cases hb : (c.cfg.basis == Basis.xy) = true
+  · have hb' : ((eraseChan c).cfg.basis == Basis.xy) = true := hb
+    rw [if_pos hb', if_pos hb]
+    simp only
+    rw [← ensureBasis_erase]
+    congr 1
+    simp [erase]
+  · have hb' : ¬ ((eraseChan c).cfg.basis == Basis.xy) = true := hb
+    rw [if_neg hb', if_neg hb]
+    simp only
+    rw [← ensureBasis_erase]
+    congr 1
+    simp [erase]
+
+theorem measBasisOk_erase (s : SeqState) (b : Basis) : measBasisOk (erase s) b = measBasisOk s b := by
+  unfold measBasisOk
+  have : (erase s).dev.chans.any (·.basis == b) = s.dev.chans.any (·.basis == b) := by
+    simp only [erase_dev, eraseDev_chans, List.any_map]; rfl
+  by_cases hx : s.inXY = true
+  · have hx' : (erase s).inXY = true := hx
+    rw [if_pos hx', if_pos hx]
+  · have hx' : ¬ (erase s).inXY = true := hx
+    rw [if_neg hx', if_neg hx, this]
+
+theorem filter_len_erase (l : List ChanState) (p : ChanState → Bool) (hp : ∀ c, p (eraseChan c) = p c) :
+    ((l.map eraseChan).filter p).length = (l.filter p).length := by
+  induction l with
+  | nil => rfl
+  | cons x rest ih =>
+    simp only [List.map_cons, List.filter_cons, hp]
+    split <;> simp [ih]
+
+theorem getLast_erase (s : SeqState) (n : ChName) :
+    ((erase s).getChan n).bind (·.slots.getLast?) = (s.getChan n).bind (·.slots.getLast?) := by
+  rw [getChan_erase]
+  cases s.getChan n <;> rfl
+
+/-! ### one API call -/
+
+theorem step_declare_erase {s : SeqState} {name : ChName} {chId : Nat} {init : Option (List Nat)}
+    (h : (stepRaw s (.declare name chId init)).err = none) :
+    stepRaw (erase s) (.declare name chId init) = eraseRaw (stepRaw s (.declare name chId init)) := by
+  simp only [stepRaw] at h ⊢
+  by_cases hm : s.measured.isSome = true
+  · rw [if_pos hm] at h; simp [fail] at h
+  · have hm' : ¬ (erase s).measured.isSome = true := hm
+    rw [if_neg hm] at h
+    rw [if_neg hm', if_neg hm]
+    cases name with
+    | dmm a b => simp [fail] at h
+    | user u =>
+      simp only at h ⊢
+      by_cases hg : (s.getChan (.user u)).isSome = true
+      · rw [if_pos hg] at h; simp [fail] at h
+      · have hg' : ¬ ((erase s).getChan (.user u)).isSome = true := by
+          rw [getChan_erase]; simpa using hg
+        rw [if_neg hg] at h
+        rw [if_neg hg', if_neg hg]
+        cases hc : s.dev.chans[chId]? with
+        | none => simp [hc, fail] at h
+        | some cfg =>
+          have hc' : (erase s).dev.chans[chId]? = some (timing cfg) := by simp [hc]
+          simp only [hc, hc'] at h ⊢
+          by_cases ha : (!s.available false chId cfg) = true
+          · rw [if_pos ha] at h
+            repeat' split at h
+            all_goals simp [fail] at h
+          · have ha' : ¬ (!(erase s).available false chId (timing cfg)) = true := by
+              have : s.available false chId cfg = true := by simpa using ha
+              simp [available_erase this]
+            rw [if_neg ha] at h
+            rw [if_neg ha', if_neg ha]
+            rw [store_err] at h
+            have e3 : (erase s).addChannel (SeqState.freshChan (.user u) chId (timing cfg) (erase s).allQubits
+                (!(timing cfg).isLocal) 1 1)
+                = erase (s.addChannel (SeqState.freshChan (.user u) chId cfg s.allQubits (!cfg.isLocal) 1 1)) := by
+              rw [← addChannel_erase]; rfl
+            rw [e3]
+            by_cases hl : (!cfg.isLocal) = true
+            · have hl' : (!(timing cfg).isLocal) = true := hl
+              rw [if_pos hl', if_pos hl, ← eraseRaw_done, store_erase]
+            · have hl' : ¬ (!(timing cfg).isLocal) = true := hl
+              rw [if_neg hl] at h
+              rw [if_neg hl', if_neg hl]
+              cases init with
+              | none => simp only; rw [← eraseRaw_done, store_erase]
+              | some qs =>
+                simp only at h ⊢
+                rw [targetCore_erase h, store_erase]
+
+theorem step_configDetMap_erase {s : SeqState} {dmmId : Nat} {w1 w2 : Rat}
+    (h : (stepRaw s (.configDetMap dmmId w1 w2)).err = none) :
+    stepRaw (erase s) (.configDetMap dmmId w1 w2) = eraseRaw (stepRaw s (.configDetMap dmmId w1 w2)) := by
+  simp only [stepRaw] at h ⊢
+  by_cases hm : s.measured.isSome = true
+  · rw [if_pos hm] at h; simp [fail] at h
+  · have hm' : ¬ (erase s).measured.isSome = true := hm
+    rw [if_neg hm] at h
+    rw [if_neg hm', if_neg hm]
+    cases hc : s.dev.dmms[dmmId]? with
+    | none => simp [hc, fail] at h
+    | some cfg =>
+      have hc' : (erase s).dev.dmms[dmmId]? = some (timing cfg) := by simp [hc]
+      simp only [hc, hc'] at h ⊢
+      by_cases hx : s.inXY = true
+      · rw [if_pos hx] at h; simp [fail] at h
+      · have hx' : ¬ (erase s).inXY = true := hx
+        rw [if_neg hx] at h
+        rw [if_neg hx', if_neg hx]
+        by_cases ha : (!s.available true dmmId cfg) = true
+        · rw [if_pos ha] at h; simp [fail] at h
+        · have ha' : ¬ (!(erase s).available true dmmId (timing cfg)) = true := by
+            have : s.available true dmmId cfg = true := by simpa using ha
+            simp [available_erase this]
+          rw [if_neg ha', if_neg ha]
+          simp only [erase_chans]
+          rw [filter_len_erase _ _ (fun c => rfl)]
+          rw [← store_erase, eraseRaw_done, ← addChannel_erase]
+          rfl
+
+theorem step_target_erase {s : SeqState} {qs : List Nat} {n : ChName}
+    (h : (stepRaw s (.target qs n)).err = none) :
+    stepRaw (erase s) (.target qs n) = eraseRaw (stepRaw s (.target qs n)) := by
+  simp only [stepRaw] at h ⊢
+  rw [store_err] at h
+  rw [targetCore_erase h, store_erase]
+
+theorem step_add_erase {s : SeqState} {p : PulseIn} {n : ChName} {proto : Option Protocol}
+    (h : (stepRaw s (.add p n proto)).err = none) :
+    stepRaw (erase s) (.add p n proto) = eraseRaw (stepRaw s (.add p n proto)) := by
+  simp only [stepRaw] at h ⊢
+  rw [store_err, markNonEmpty_err] at h
+  rw [← store_erase, ← markNonEmpty_erase]
+  congr 2
+  by_cases hm : s.measured.isSome = true
+  · rw [if_pos hm] at h; simp [fail] at h
+  · have hm' : ¬ (erase s).measured.isSome = true := hm
+    rw [if_neg hm] at h
+    rw [if_neg hm', if_neg hm]
+    cases hv : s.validateChannel n true with
+    | error e => simp [hv, fail] at h
+    | ok c =>
+      simp only [hv, validateChannel_erase hv] at h ⊢
+      by_cases hd : c.cfg.isDmm = true
+      · rw [if_pos hd] at h; simp [fail] at h
+      · have hd' : ¬ (eraseChan c).cfg.isDmm = true := hd
+        rw [if_neg hd] at h
+        rw [if_neg hd', if_neg hd]
+        exact addCore_erase h
+
+theorem step_addDmm_erase {s : SeqState} {p : PulseIn} {n : ChName} {proto : Option Protocol}
+    (h : (stepRaw s (.addDmm p n proto)).err = none) :
+    stepRaw (erase s) (.addDmm p n proto) = eraseRaw (stepRaw s (.addDmm p n proto)) := by
+  simp only [stepRaw] at h ⊢
+  rw [store_err, markNonEmpty_err] at h
+  rw [← store_erase, ← markNonEmpty_erase]
+  congr 2
+  by_cases hm : s.measured.isSome = true
+  · rw [if_pos hm] at h; simp [fail] at h
+  · have hm' : ¬ (erase s).measured.isSome = true := hm
+    rw [if_neg hm] at h
+    rw [if_neg hm', if_neg hm]
+    cases hv : s.validateChannel n false with
+    | error e => simp [hv, fail] at h
+    | ok c =>
+      simp only [hv, validateChannel_erase hv] at h ⊢
+      by_cases hd : (!c.cfg.isDmm) = true
+      · rw [if_pos hd] at h; simp [fail] at h
+      · have hd' : ¬ (!(eraseChan c).cfg.isDmm) = true := hd
+        rw [if_neg hd] at h
+        rw [if_neg hd', if_neg hd]
+        exact addCore_erase h
+
+theorem step_addEom_erase {s : SeqState} {n : ChName} {dur : Nat} {phase post : Rat} {proto : Option Protocol}
+    {corr : Bool} {fs fe ref : Nat}
+    (h : (stepRaw s (.addEom n dur phase post proto corr fs fe ref)).err = none) :
+    stepRaw (erase s) (.addEom n dur phase post proto corr fs fe ref)
+      = eraseRaw (stepRaw s (.addEom n dur phase post proto corr fs fe ref)) := by
+  simp only [stepRaw] at h ⊢
+  rw [store_err, markNonEmpty_err] at h
+  rw [← store_erase, ← markNonEmpty_erase]
+  congr 2
+  by_cases hm : s.measured.isSome = true
+  · rw [if_pos hm] at h; simp [fail] at h
+  · have hm' : ¬ (erase s).measured.isSome = true := hm
+    rw [if_neg hm] at h
+    rw [if_neg hm', if_neg hm]
+    cases hv : s.validateChannel n false with
+    | error e => simp [hv, fail] at h
+    | ok c =>
+      simp only [hv, validateChannel_erase hv, eraseChan_eom] at h ⊢
+      cases hb : c.eom.getLast? with
+      | none => simp [hb, fail] at h
+      | some b =>
+        simp only [hb] at h ⊢
+        by_cases ht : b.tf.isSome = true
+        · rw [if_pos ht] at h; simp [fail] at h
+        · rw [if_neg ht] at h
+          rw [if_neg ht, if_neg ht]
+          exact addCore_erase h
+
+theorem step_delay_erase {s : SeqState} {d : Int} {n : ChName} {atRest : Bool}
+    (h : (stepRaw s (.delay d n atRest)).err = none) :
+    stepRaw (erase s) (.delay d n atRest) = eraseRaw (stepRaw s (.delay d n atRest)) := by
+  simp only [stepRaw] at h ⊢
+  rw [store_err] at h
+  rw [delayCore_erase h, store_erase]
+
+theorem step_phaseShift_erase {s : SeqState} {phi : Rat} {qs : List Nat} {b : Basis} :
+    stepRaw (erase s) (.phaseShift phi qs b) = eraseRaw (stepRaw s (.phaseShift phi qs b)) := by
+  simp only [stepRaw]
+  rw [phaseShift_erase, store_erase]
+
+theorem step_measure_erase {s : SeqState} {b : Basis} :
+    stepRaw (erase s) (.measure b) = eraseRaw (stepRaw s (.measure b)) := by
+  simp only [stepRaw]
+  rw [← store_erase]
+  congr 1
+  by_cases hm : s.measured.isSome = true
+  · have hm' : (erase s).measured.isSome = true := hm
+    rw [if_pos hm', if_pos hm]; rfl
+  · have hm' : ¬ (erase s).measured.isSome = true := hm
+    rw [if_neg hm', if_neg hm]
+    by_cases hb : (!measBasisOk s b) = true
+    · have hb' : (!measBasisOk (erase s) b) = true := by rw [measBasisOk_erase]; exact hb
+      rw [if_pos hb', if_pos hb]; rfl
+    · have hb' : ¬ (!measBasisOk (erase s) b) = true := by rw [measBasisOk_erase]; exact hb
+      rw [if_neg hb', if_neg hb]; rfl
+
+theorem step_align_erase {s : SeqState} {chs : List ChName} {atRest : Bool}
+    (h : (stepRaw s (.align chs atRest)).err = none) :
+    stepRaw (erase s) (.align chs atRest) = eraseRaw (stepRaw s (.align chs atRest)) := by
+  simp only [stepRaw] at h ⊢
+  rw [store_err] at h
+  rw [← store_erase]
+  congr 1
+  have hany : (chs.any fun n => ((erase s).getChan n).isNone) = (chs.any fun n => (s.getChan n).isNone) := by
+    congr 1; funext n; rw [getChan_erase]; cases s.getChan n <;> rfl
+  have hmap : (chs.filterMap fun n => ((erase s).getChan n).map fun c => (n, c.getDuration atRest))
+      = (chs.filterMap fun n => (s.getChan n).map fun c => (n, c.getDuration atRest)) := by
+    congr 1; funext n; rw [getChan_erase]; cases s.getChan n <;> rfl
+  by_cases hm : s.measured.isSome = true
+  · rw [if_pos hm] at h; simp [fail] at h
+  · have hm' : ¬ (erase s).measured.isSome = true := hm
+    rw [if_neg hm] at h
+    rw [if_neg hm', if_neg hm]
+    by_cases h1 : (chs.any fun n => (s.getChan n).isNone) = true
+    · rw [if_pos h1] at h; simp [fail] at h
+    · have h1' : ¬ (chs.any fun n => ((erase s).getChan n).isNone) = true := by rw [hany]; exact h1
+      rw [if_neg h1] at h
+      rw [if_neg h1', if_neg h1]
+      by_cases h2 : chs.eraseDups.length ≠ chs.length
+      · rw [if_pos h2] at h; simp [fail] at h
+      · rw [if_neg h2] at h
+        rw [if_neg h2, if_neg h2]
+        by_cases h3 : chs.length < 2
+        · rw [if_pos h3] at h; simp [fail] at h
+        · rw [if_neg h3] at h
+          rw [if_neg h3, if_neg h3]
+          simp only [hmap] at h ⊢
+          generalize (chs.filterMap fun n => (s.getChan n).map fun c => (n, c.getDuration atRest)) = lt at h ⊢
+          cases lt with
+          | nil => rfl
+          | cons x rest =>
+            obtain ⟨n0, t0⟩ := x
+            simp only at h ⊢
+            exact sim_alignLoop _ _ s h
+
+theorem sim_enableEom (m : Option Nat) (amp detOn detOff : Rat) (sb sw : Bool) :
+    Sim (fun c => enableEom m c amp detOn detOff sb sw) (fun c => enableEom none c amp detOn detOff sb sw) :=
+  fun _ h => enableEom_erase h
+
+theorem sim_disableEom (m : Option Nat) (sk : Bool) :
+    Sim (fun c => disableEom m c sk) (fun c => disableEom none c sk) :=
+  fun _ h => disableEom_erase h
+
+theorem step_enableEom_erase {s : SeqState} {n : ChName} {e : EomIn}
+    (h : (stepRaw s (.enableEom n e)).err = none) :
+    stepRaw (erase s) (.enableEom n e) = eraseRaw (stepRaw s (.enableEom n e)) := by
+  simp only [stepRaw] at h ⊢
+  by_cases hm : s.measured.isSome = true
+  · rw [if_pos hm] at h; simp [fail] at h
+  · have hm' : ¬ (erase s).measured.isSome = true := hm
+    rw [if_neg hm] at h
+    rw [if_neg hm', if_neg hm]
+    cases hv : s.validateChannel n false with
+    | error er => simp [hv, fail] at h
+    | ok c =>
+      simp only [hv, validateChannel_erase hv] at h ⊢
+      by_cases h1 : c.inEomMode = true
+      · rw [if_pos h1] at h; simp [fail] at h
+      · have h1' : ¬ (eraseChan c).inEomMode = true := h1
+        rw [if_neg h1] at h
+        rw [if_neg h1', if_neg h1]
+        by_cases h2 : c.cfg.eom.isNone = true
+        · rw [if_pos h2] at h; simp [fail] at h
+        · have h2' : ¬ (eraseChan c).cfg.eom.isNone = true := h2
+          rw [if_neg h2] at h
+          rw [if_neg h2', if_neg h2]
+          cases hp : processEomParams c e with
+          | error er => simp [hp, fail] at h
+          | ok detOff =>
+            simp only [hp, processEomParams_erase hp] at h ⊢
+            obtain ⟨a1, a2, a3⟩ := rbind_ok h
+            rw [a3]
+            have e1 := withChan_erase (sim_enableEom s.dev.maxSeqDur e.amp e.detOn detOff false false) a1
+            have e1' : (erase s).withChan n (fun c => enableEom (erase s).dev.maxSeqDur c e.amp e.detOn detOff false false)
+                = eraseRaw (s.withChan n fun c => enableEom s.dev.maxSeqDur c e.amp e.detOn detOff false false) := e1
+            rw [e1']
+            generalize (s.withChan n fun c => enableEom s.dev.maxSeqDur c e.amp e.detOn detOff false false) = r1
+              at a1 a2 ⊢
+            have ea : (eraseRaw r1).err = none := a1
+            have est : (eraseRaw r1).st = erase r1.st := rfl
+            unfold Raw.bind
+            simp only [ea, est]
+            rw [store_err] at a2
+            rw [← store_erase]
+            congr 1
+            by_cases hc : e.corr = true
+            · rw [if_pos hc] at a2
+              rw [if_pos hc, if_pos hc, getLast_erase]
+              cases hb : (r1.st.getChan n).bind (·.slots.getLast?) with
+              | none => simp [hb, fail] at a2
+              | some buf =>
+                simp only
+                exact phaseShift_erase _ _ _ _
+            · rw [if_neg hc, if_neg hc]; rfl
+
+theorem step_disableEom_erase {s : SeqState} {n : ChName} {corr : Bool}
+    (h : (stepRaw s (.disableEom n corr)).err = none) :
+    stepRaw (erase s) (.disableEom n corr) = eraseRaw (stepRaw s (.disableEom n corr)) := by
+  simp only [stepRaw] at h ⊢
+  rw [store_err] at h
+  rw [← store_erase]
+  congr 1
+  by_cases hm : s.measured.isSome = true
+  · rw [if_pos hm] at h; simp [fail] at h
+  · have hm' : ¬ (erase s).measured.isSome = true := hm
+    rw [if_neg hm] at h
+    rw [if_neg hm', if_neg hm]
+    cases hv : s.validateChannel n false with
+    | error er => simp [hv, fail] at h
+    | ok c =>
+      simp only [hv, validateChannel_erase hv] at h ⊢
+      by_cases h1 : (!c.inEomMode) = true
+      · rw [if_pos h1] at h; simp [fail] at h
+      · have h1' : ¬ (!(eraseChan c).inEomMode) = true := h1
+        rw [if_neg h1] at h
+        rw [if_neg h1', if_neg h1]
+        obtain ⟨a1, a2, a3⟩ := rbind_ok h
+        rw [a3]
+        have e1' : (erase s).withChan n (fun c => disableEom (erase s).dev.maxSeqDur c false)
+            = eraseRaw (s.withChan n fun c => disableEom s.dev.maxSeqDur c false) :=
+          withChan_erase (sim_disableEom s.dev.maxSeqDur false) a1
+        rw [e1']
+        generalize (s.withChan n fun c => disableEom s.dev.maxSeqDur c false) = r1 at a1 a2 ⊢
+        have ea : (eraseRaw r1).err = none := a1
+        have est : (eraseRaw r1).st = erase r1.st := rfl
+        unfold Raw.bind
+        simp only [ea, est]
+        by_cases hc : corr = true
+        · rw [if_pos hc] at a2
+          rw [if_pos hc, if_pos hc, getChan_erase]
+          cases hg : r1.st.getChan n with
+          | none => simp [hg, fail] at a2
+          | some c1 =>
+            simp only [hg, Option.map_some, eraseChan_eom, eraseChan_slots] at a2 ⊢
+            cases hl : c1.slots.getLast? with
+            | none => simp [hl, fail] at a2
+            | some l =>
+              simp only
+              exact phaseShift_erase _ _ _ _
+        · rw [if_neg hc, if_neg hc]; rfl
+
+theorem step_modifyEom_erase {s : SeqState} {n : ChName} {e : EomIn}
+    (h : (stepRaw s (.modifyEom n e)).err = none) :
+    stepRaw (erase s) (.modifyEom n e) = eraseRaw (stepRaw s (.modifyEom n e)) := by
+  simp only [stepRaw] at h ⊢
+  by_cases hm : s.measured.isSome = true
+  · rw [if_pos hm] at h; simp [fail] at h
+  · have hm' : ¬ (erase s).measured.isSome = true := hm
+    rw [if_neg hm] at h
+    rw [if_neg hm', if_neg hm]
+    cases hv : s.validateChannel n false with
+    | error er => simp [hv, fail] at h
+    | ok c =>
+      simp only [hv, validateChannel_erase hv] at h ⊢
+      by_cases h1 : (!c.inEomMode) = true
+      · rw [if_pos h1] at h; simp [fail] at h
+      · have h1' : ¬ (!(eraseChan c).inEomMode) = true := h1
+        rw [if_neg h1] at h
+        rw [if_neg h1', if_neg h1]
+        cases hp : processEomParams c e with
+        | error er => simp [hp, fail] at h
+        | ok detOff =>
+          simp only [hp, processEomParams_erase hp] at h ⊢
+          obtain ⟨a1, a2, a3⟩ := rbind_ok h
+          rw [a3]
+          have e1' : (erase s).withChan n (fun c => disableEom (erase s).dev.maxSeqDur c true)
+              = eraseRaw (s.withChan n fun c => disableEom s.dev.maxSeqDur c true) :=
+            withChan_erase (sim_disableEom s.dev.maxSeqDur true) a1
+          rw [e1']
+          generalize (s.withChan n fun c => disableEom s.dev.maxSeqDur c true) = r1 at a1 a2 ⊢
+          have ea : (eraseRaw r1).err = none := a1
+          have est : (eraseRaw r1).st = erase r1.st := rfl
+          rw [rbind_none ea, est]
+          rw [getChan_erase]
+          cases hg : r1.st.getChan n with
+          | none => simp [hg, fail] at a2
+          | some c1 =>
+            simp only [hg, Option.map_some] at a2 ⊢
+            obtain ⟨b1, b2, b3⟩ := rbind_ok a2
+            rw [b3]
+            have e2' : (erase r1.st).withChan n
+                  (fun c => enableEom (erase s).dev.maxSeqDur c e.amp e.detOn detOff false true)
+                = eraseRaw (r1.st.withChan n fun c => enableEom s.dev.maxSeqDur c e.amp e.detOn detOff false true) :=
+              withChan_erase (sim_enableEom s.dev.maxSeqDur e.amp e.detOn detOff false true) b1
+            rw [e2']
+            generalize (r1.st.withChan n fun c => enableEom s.dev.maxSeqDur c e.amp e.detOn detOff false true) = r2
+              at b1 b2 ⊢
+            have eb : (eraseRaw r2).err = none := b1
+            have est2 : (eraseRaw r2).st = erase r2.st := rfl
+            rw [rbind_none eb, est2]
+            rw [store_err] at b2
+            rw [← store_erase]
+            congr 1
+            by_cases hc : e.corr = true
+            · rw [if_pos hc] at b2
+              rw [if_pos hc, if_pos hc, getLast_erase]
+              cases hb : (r2.st.getChan n).bind (·.slots.getLast?) with
+              | none => simp [hb, fail] at b2
+              | some buf =>
+                simp only
+                exact phaseShift_erase _ _ _ _
+            · rw [if_neg hc, if_neg hc]; rfl
+
+theorem estimateCore_erase {s : SeqState} {p : PulseIn} {c : ChanState} {proto : Protocol}
+    (hn : (erase s).others (eraseChan c).name = (s.others c.name).map eraseChan)
+    (h : (estimateCore s p c proto).err = none) :
+    estimateCore (erase s) p (eraseChan c) proto = eraseRaw (estimateCore s p c proto) := by
+  unfold estimateCore at h ⊢
+  have hle : (eraseChan c).last = c.last := rfl
+  cases hl : c.last with
+  | error e => simp [hl, fail] at h
+  | ok last =>
+    rw [hl] at hle
+    simp only [hl, hle] at h ⊢
+    by_cases hc : (!c.cfg.isDmm && !allSame (s.lastPhases c.cfg.basis last.targets)) = true
+    · rw [if_pos hc] at h; simp [fail] at h
+    · have hc' : ¬ (!(eraseChan c).cfg.isDmm &&
+          !allSame ((erase s).lastPhases (eraseChan c).cfg.basis last.targets)) = true := hc
+      rw [if_neg hc] at h
+      rw [if_neg hc', if_neg hc]
+      cases hv : validateAndAdjust c p (if c.cfg.isDmm = true then none
+          else (s.lastPhases c.cfg.basis last.targets).head?) with
+      | error e => simp [hv, fail] at h
+      | ok pr =>
+        have hv' : validateAndAdjust (eraseChan c) p (if (eraseChan c).cfg.isDmm = true then none
+          else ((erase s).lastPhases (eraseChan c).cfg.basis last.targets).head?) = .ok pr :=
+          validateAndAdjust_erase hv
+        simp only [hv, hv'] at h ⊢
+        cases hs : makeNextPulseSlot s.dev.maxSeqDur c (s.others c.name) pr
+            (s.lastTimes c.cfg.basis last.targets) proto none false with
+        | error e => simp [hs, fail] at h
+        | ok slot =>
+          have hs' : makeNextPulseSlot (erase s).dev.maxSeqDur (eraseChan c) ((erase s).others (eraseChan c).name) pr
+              ((erase s).lastTimes (eraseChan c).cfg.basis last.targets) proto none false = .ok slot := by
+            rw [hn]; exact makeNextPulseSlot_erase hs
+          simp only [hs']
+          rfl
+
+theorem step_query_erase {s : SeqState} {op : Op}
+    (hq : match op with | .getDuration .. | .estimate .. | .phaseRef .. => True | _ => False)
+    (h : (stepRaw s op).err = none) : stepRaw (erase s) op = eraseRaw (stepRaw s op) := by
+  cases op <;> simp only at hq
+  · -- getDuration
+    rename_i ch fall
+    simp only [stepRaw] at h ⊢
+    cases ch with
+    | none =>
+      simp only [erase_chans, List.map_map]
+      rfl
+    | some n =>
+      simp only at h ⊢
+      rw [getChan_erase]
+      cases hg : s.getChan n with
+      | none => simp [hg, fail] at h
+      | some c => rfl
+  · -- estimate
+    rename_i p n proto
+    simp only [stepRaw] at h ⊢
+    cases hv : s.validateChannel n false with
+    | error e => simp [hv, fail] at h
+    | ok c =>
+      simp only [hv, validateChannel_erase hv] at h ⊢
+      cases proto with
+      | none => simp [fail] at h
+      | some pr =>
+        simp only at h ⊢
+        exact estimateCore_erase (others_erase s c.name) h
+  · -- phaseRef
+    rename_i q b
+    simp only [stepRaw] at h ⊢
+    by_cases hq : q ≥ s.nQ
+    · rw [if_pos hq] at h; simp [fail] at h
+    · have hq' : ¬ q ≥ (erase s).nQ := hq
+      rw [if_neg hq', if_neg hq]
+      have : (erase s).getRefs b = s.getRefs b := rfl
+      rw [this]
+      cases s.getRefs b <;> rfl
+
+/-- **Erasing the limits is a simulation**: a call that is accepted on `s` is accepted on the
+limit-free state `erase s` and leaves it in the erased post-state, with the same returned value. -/
+theorem stepRaw_erase (s : SeqState) (op : Op) (h : (stepRaw s op).err = none) :
+    stepRaw (erase s) op = eraseRaw (stepRaw s op) := by
+  cases op with
+  | declare name chId init => exact step_declare_erase h
+  | configDetMap d a b => exact step_configDetMap_erase h
+  | target qs n => exact step_target_erase h
+  | add p n pr => exact step_add_erase h
+  | addDmm p n pr => exact step_addDmm_erase h
+  | addEom n d ph po pr c fs fe r => exact step_addEom_erase h
+  | delay d n a => exact step_delay_erase h
+  | align chs a => exact step_align_erase h
+  | phaseShift phi qs b => exact step_phaseShift_erase
+  | enableEom n e => exact step_enableEom_erase h
+  | modifyEom n e => exact step_modifyEom_erase h
+  | disableEom n c => exact step_disableEom_erase h
+  | measure b => exact step_measure_erase
+  | getDuration ch f => exact step_query_erase trivial h
+  | estimate p n pr => exact step_query_erase trivial h
+  | phaseRef q b => exact step_query_erase trivial h
+
+/-- Histories of accepted calls commute with erasure. -/
+theorem run_erase (s : SeqState) (ops : List Op) (h : allOk s ops = true) :
+    run (erase s) ops = erase (run s ops) := by
+  induction ops generalizing s with
+  | nil => rfl
+  | cons op rest ih =>
+    simp only [allOk, Bool.and_eq_true, Option.isNone_iff_eq_none] at h
+    have e := stepRaw_erase s op h.1
+    simp only [run, List.foldl_cons] at ih ⊢
+    rw [e]
+    exact ih _ h.2
+
+/-! ### the field tables -/
+
+theorem eom_ext {x y : Option EomCfg}
+    (h0 : x.isSome = y.isSome)
+    (h1 : x.map (·.rise) = y.map (·.rise)) (h2 : x.map (·.bufferTime) = y.map (·.bufferTime))
+    (h3 : (x.map fun e => if e.customBuffer then 1 else 0) = (y.map fun e => if e.customBuffer then (1 : Nat) else 0)) :
+    x = y := by
+  cases x with
+  | none => cases y with
+    | none => rfl
+    | some b => simp at h0
+  | some a => cases y with
+    | none => simp at h0
+    | some b =>
+      obtain ⟨r1, b1, c1⟩ := a
+      obtain ⟨r2, b2, c2⟩ := b
+      simp only [Option.map_some, Option.some.injEq] at h1 h2 h3
+      subst h1 h2
+      cases c1 <;> cases c2 <;> simp_all
+
+/-- Agreement on the timing fields gives the same erased configuration. -/
+theorem timing_eq_of_agree {a b : ChanCfg} (h : agreeOn timingFields a b = true) : timing a = timing b := by
+  simp only [agreeOn, timingFields, List.all_cons, List.all_nil, Bool.and_true, Bool.and_eq_true, beq_iff_eq,
+    get] at h
+  simp only [String.reduceEq, if_true, if_false, FVal.ty.injEq, FVal.basis.injEq, FVal.bool.injEq,
+    FVal.nat.injEq, FVal.onat.injEq] at h
+  obtain ⟨⟨t1, t2⟩, hb, hl, hc, hmd, hr, hp, hmr, hfr, he0, he1, he2, he3⟩ := h
+  have he := eom_ext he0 he1 he2 he3
+  cases a; cases b
+  simp only [timing, effMinRetarget] at *
+  simp_all
+
+/-- The two tables name every field of `ChanCfg`: agreement on all of them is equality. -/
+theorem eq_of_agree_all {a b : ChanCfg} (h : agreeOn (timingFields ++ limitFields) a b = true) : a = b := by
+  simp only [agreeOn, timingFields, limitFields, List.cons_append, List.nil_append, List.all_cons, List.all_nil,
+    Bool.and_true, Bool.and_eq_true, beq_iff_eq, get] at h
+  simp only [String.reduceEq, if_true, if_false, FVal.ty.injEq, FVal.basis.injEq, FVal.bool.injEq,
+    FVal.nat.injEq, FVal.onat.injEq, FVal.orat.injEq, FVal.rat.injEq] at h
+  obtain ⟨⟨t1, t2⟩, hb, hl, hc, hmd, hr, hp, hmr, hfr, he0, he1, he2, he3, l1, l2, l3, l4, l5, l6, l7⟩ := h
+  have he := eom_ext he0 he1 he2 he3
+  cases a; cases b
+  simp_all
+
+theorem map_timing_of_agree : ∀ {l₁ l₂ : List ChanCfg}, chansAgree l₁ l₂ = true → l₁.map timing = l₂.map timing
+  | [], [], _ => rfl
+  | [], _ :: _, h => by simp [chansAgree] at h
+  | _ :: _, [], h => by simp [chansAgree] at h
+  | a :: l₁, b :: l₂, h => by
+    simp only [chansAgree, List.length_cons, List.zip_cons_cons, List.all_cons, Bool.and_eq_true, beq_iff_eq,
+      Nat.add_right_cancel_iff] at h
+    have ih : l₁.map timing = l₂.map timing :=
+      map_timing_of_agree (by simp only [chansAgree, Bool.and_eq_true, beq_iff_eq]; exact ⟨h.1, h.2.2⟩)
+    simp only [List.map_cons, timing_eq_of_agree h.2.1, ih]
+
+theorem eraseDev_eq_of_agree {d₁ d₂ : Device} (h : devicesAgree d₁ d₂ = true) : eraseDev d₁ = eraseDev d₂ := by
+  simp only [devicesAgree, Bool.and_eq_true] at h
+  simp only [eraseDev, map_timing_of_agree h.1, map_timing_of_agree h.2]
+
+/-! ### soundness of a complete strict comparison -/
+
+theorem strictMatch_mem {params : List String} {eom : Bool} {a b : ChanCfg} {f : String}
+    (hm : strictMatch params eom a b = true) (hf : f ∈ params) (hg : guardHolds f eom a b = true) :
+    paramEq f a b = true := by
+  unfold strictMatch at hm
+  have := List.all_eq_true.mp hm f hf
+  simpa [hg] using this
+
+/-- The part of the erased configuration that does not depend on the EOM. -/
+theorem strictMatch_core {params : List String}
+    (hcov : ∀ f ∈ timingFields, f ∉ dynamicFields → f ∈ params) {eom : Bool} {a b : ChanCfg}
+    (wa : retargetWF a = true) (wb : retargetWF b = true) (hm : strictMatch params eom a b = true) :
+    timing (noEom a) = timing (noEom b) := by
+  have g : ∀ f, f ∈ timingFields → f ∉ dynamicFields → guardHolds f eom a b = true → paramEq f a b = true :=
+    fun f h1 h2 h3 => strictMatch_mem hm (hcov f h1 h2) h3
+  have e1 := g "type" (by decide) (by decide) (by simp [guardHolds])
+  have e2 := g "basis" (by decide) (by decide) (by simp [guardHolds])
+  have e3 := g "addressing" (by decide) (by decide) (by simp [guardHolds])
+  have e4 := g "clock_period" (by decide) (by decide) (by simp [guardHolds])
+  have e5 := g "min_duration" (by decide) (by decide) (by simp [guardHolds])
+  have e6 := g "mod_bandwidth" (by decide) (by decide) (by simp [guardHolds])
+  have e7 := g "phase_jump_time" (by decide) (by decide) (by simp [guardHolds])
+  have e8 := g "fixed_retarget_t" (by decide) (by decide) (by simp [guardHolds])
+  have e9 := g "min_retarget_interval" (by decide) (by decide)
+  simp only [paramEq, get, String.reduceEq, if_false, if_true, beq_iff_eq, FVal.ty.injEq, FVal.basis.injEq,
+    FVal.bool.injEq, FVal.nat.injEq] at e1 e2 e3 e4 e5 e6 e7 e8
+  simp only [paramEq, get, guardHolds, String.reduceEq, if_false, if_true, beq_iff_eq, FVal.nat.injEq,
+    or_self, Bool.or_eq_true, checkRetarget, Bool.and_eq_true, decide_eq_true_eq] at e9
+  simp only [retargetWF, Bool.or_eq_true, decide_eq_true_eq] at wa wb
+  have hmr : effMinRetarget a = effMinRetarget b := by
+    unfold effMinRetarget
+    by_cases hg : (a.isLocal = true ∧ a.fixedRetarget < a.minRetarget) ∨ (b.isLocal = true ∧ b.fixedRetarget < b.minRetarget)
+    · have := e9 hg
+      rw [this, e8]
+    · have ha : a.minRetarget ≤ a.fixedRetarget := by
+        rcases wa with w | w
+        · by_cases hh : a.fixedRetarget < a.minRetarget
+          · exact absurd (Or.inl ⟨w, hh⟩) hg
+          · omega
+        · exact w
+      have hb : b.minRetarget ≤ b.fixedRetarget := by
+        rcases wb with w | w
+        · by_cases hh : b.fixedRetarget < b.minRetarget
+          · exact absurd (Or.inr ⟨w, hh⟩) hg
+          · omega
+        · exact w
+      rw [if_pos ha, if_pos hb]
+  have e1 := e1.1
+  clear g hm hcov wa wb e9
+  cases a; cases b
+  simp only at e1 e2 e3 e4 e5 e6 e7 e8
+  subst e1 e2 e3 e4 e5 e6 e7 e8
+  simp only [timing, noEom, ChanCfg.mk.injEq, true_and, and_true]
+  exact hmr
+
+/-- **A strict comparison that covers every static timing parameter is sound** for a channel whose
+EOM mode is never enabled: the two configurations have the same erased form. -/
+theorem strictMatch_sound {params : List String}
+    (hcov : ∀ f ∈ timingFields, f ∉ dynamicFields → f ∈ params) {a b : ChanCfg}
+    (wa : retargetWF a = true) (wb : retargetWF b = true) (hm : strictMatch params false a b = true) :
+    timing (noEom a) = timing (noEom b) := strictMatch_core hcov wa wb hm
+
+/-- … and for a channel whose EOM mode is used, given the two EOM buffer parameters that only the
+post-replay sample comparison covers. -/
+theorem strictMatch_sound_eom {params : List String}
+    (hcov : ∀ f ∈ timingFields, f ∉ dynamicFields → f ∈ params) {a b : ChanCfg}
+    (wa : retargetWF a = true) (wb : retargetWF b = true) (hm : strictMatch params true a b = true)
+    (hae : a.eom.isSome = true) (hdyn : agreeOn dynamicFields a b = true) :
+    timing a = timing b := by
+  have core := strictMatch_core hcov wa wb hm
+  have g : ∀ f, f ∈ timingFields → f ∉ dynamicFields → guardHolds f true a b = true → paramEq f a b = true :=
+    fun f h1 h2 h3 => strictMatch_mem hm (hcov f h1 h2) h3
+  have e1 := g "eom_config" (by decide) (by decide) (by simp [guardHolds])
+  have e2 := g "eom_config.mod_bandwidth" (by decide) (by decide) (by simp [guardHolds])
+  simp only [paramEq, get, String.reduceEq, if_false, if_true, beq_iff_eq, FVal.onat.injEq] at e1 e2
+  simp only [agreeOn, dynamicFields, List.all_cons, List.all_nil, Bool.and_true, Bool.and_eq_true, beq_iff_eq,
+    get, String.reduceEq, if_false, if_true, FVal.onat.injEq] at hdyn
+  have he : a.eom = b.eom := eom_ext (by rw [hae, e1]) e2 hdyn.1 hdyn.2
+  clear g hm hcov wa wb e1 e2 hdyn hae
+  cases a; cases b
+  simp only at he
+  subst he
+  simp only [timing, noEom, effMinRetarget, ChanCfg.mk.injEq, true_and, and_true] at core ⊢
+  exact core
+
+theorem covers_of_missing_nil {params samples : List String} (h : strictMissing params samples = []) :
+    ∀ f ∈ timingFields, f ∉ dynamicFields → f ∈ params := by
+  intro f hf hd
+  unfold strictMissing at h
+  have := List.filter_eq_nil_iff.mp h f hf
+  by_cases hp : params.contains f = true
+  · simpa using hp
+  · exfalso
+    apply this
+    simp only [Bool.and_eq_true, Bool.not_eq_eq_eq_not, Bool.not_true, Bool.and_eq_false_imp]
+    refine ⟨by simpa using hp, ?_⟩
+    intro hc
+    exact absurd (by simpa using hc) hd
+
+theorem all_ite_singleton (c : Bool) (x : String) (f : String → Bool) :
+    (if c = true then [x] else []).all f = (!c || f x) := by cases c <;> simp
+
+/-- `check_channels_match(strict=True)` in statement order is the table-driven comparison over
+`modelStrictParams`. -/
+theorem checkChannelsMatch_ok_iff (old new : ChanCfg) (eom : Bool) :
+    checkChannelsMatch old new eom true = .ok ↔ strictMatch modelStrictParams eom old new = true := by
+  unfold checkChannelsMatch strictMatch modelStrictParams paramsToCheck
+  simp only [List.all_cons, List.all_nil, Bool.and_true, guardHolds, paramEq, String.reduceEq, if_false,
+    if_true, or_false, or_true, false_or, true_or, or_self, List.all_append, Bool.not_true, Bool.false_eq_true,
+    all_ite_singleton]
+  generalize (get old "type" == get new "type") = a1
+  generalize (get old "basis" == get new "basis") = a2
+  generalize (get old "addressing" == get new "addressing") = a3
+  generalize (get old "eom_config.mod_bandwidth" == get new "eom_config.mod_bandwidth") = a4
+  generalize (get old "mod_bandwidth" == get new "mod_bandwidth") = a5
+  generalize (get old "fixed_retarget_t" == get new "fixed_retarget_t") = a6
+  generalize (get old "clock_period" == get new "clock_period") = a7
+  generalize (get old "min_retarget_interval" == get new "min_retarget_interval") = a8
+  generalize new.eom.isSome = a9
+  generalize (checkRetarget old || checkRetarget new) = g
+  cases eom <;> cases a1 <;> cases a2 <;> cases a3 <;> cases a4 <;> cases a5 <;> cases a6 <;> cases a7 <;>
+    cases a8 <;> cases a9 <;> cases g <;> decide
 
 end Switch
 end Pulser
